@@ -272,6 +272,33 @@ def judge_ack(src_text, real):
     return viol
 
 
+DATA = os.path.join(os.path.dirname(os.path.abspath(__file__)), 'data')
+# directed inputs (name, file under harness/data): evaluated on every run, whatever the seed
+#   ak4-max99: 106 element errors on one segment -> 106 AK4 behind one AK3, the 997 map allows 99 (`max_use`): re-validation
+#              reports segment error 5 at the 100th AK4 (known finding, not repaired)
+DIRECTED = [('ak4-max99', 'c06_ak4_max99.txt')]
+
+
+def work_directed(args):
+    name, fn = args
+    path = os.path.join(DATA, fn)
+    try:
+        with open(path) as fd:
+            text = fd.read()
+    except OSError as e:
+        raise common.Infra('directed input missing: %s (%r)' % (path, e))
+    real = c05.run_real(text)
+    viol = judge_ack(text, real)
+    se, el_t, su, src = c05.own_split(text)
+    return {'c': name, 'exotic': False, 'directed': name, 'text': text,
+            'meta': {'maps': ['directed:' + fn], 'icvn': None, 'shape': None, 'faults': ['directed-' + name],
+                     'delims': (se, el_t, su, '^'), 'planted': []},
+            'viol': viol, 'mline': c05.model_line(real), 'nrep': len(real['reports']), 'exc': real['exc'],
+            'nsets': sum(1 for sid, _ in src if sid == 'ST'),
+            'real': {k: real[k] for k in ('exc', 'snapshot', 'count', 'kind', 'ack_exc', 'writes', 'verdict')},
+            'lost': sum(1 for r in real['reports'] if r[5])}
+
+
 def work(args):
     seed, c, exotic = args
     if exotic:
@@ -292,8 +319,9 @@ def run(tier):
     import logging
     logging.disable(logging.CRITICAL)
     res = common.Result('C06', tier)
-    res.cov['rule'] = ('acknowledgements written for generated documents (C05 generator) and for exotic renderings (other '
-                       'delimiters; ~ * : ^ planted in offending values, unknown segment ids, sender ids, control numbers); a case '
+    res.cov['rule'] = ('acknowledgements written for generated documents (C05 generator, composite-level element errors included) '
+                       'and for exotic renderings (other delimiters; ~ * : ^ planted in offending values, unknown segment ids, sender '
+                       'ids, control numbers), plus the directed inputs of harness/data (DIRECTED); a case '
                        'is the source text; non-trivial = at least one error reported or at least two sets')
     built = common.proof_stage(res, 'C06')
     # map-side hypotheses of ack997_revalidates (shape997, ackDefsOk, ackKeysOk, isaDefOk): regenerated from the shipped 997 and
@@ -322,6 +350,7 @@ def run(tier):
     jobs = [(common.seed(), c, False) for c in range(n)] + [(common.seed(), c, True) for c in range(n)]
     results = list(c05.pool_map(work, jobs, tier))
     results.sort(key=lambda w: (w['exotic'], w['c']))
+    results.extend(work_directed(d) for d in DIRECTED)
     mouts = common.run_model([w['mline'] for w in results]) if built else None
     dist = {'kinds': {}, 'delims': {}, 'planted': {}, 'faults': {}, 'acks': 0, 'out_of_scope_crashes': {}}
 
@@ -353,13 +382,13 @@ def run(tier):
                 ndis += 1
                 if not w['viol']:
                     for name, detail in bad[:2]:
-                        res.broke('correspondence:' + name, 'case %s%d faults %r: %s' % ('x' if w['exotic'] else '', w['c'], w['meta']['faults'], detail[:500]))
+                        res.broke('correspondence:' + name, 'case %s%s faults %r: %s' % ('x' if w['exotic'] else '', w['c'], w['meta']['faults'], detail[:500]))
     res.notes['input_distribution'] = dist
     res.notes['disagreements_checked'] = ndis
     res.assumptions = ['an acknowledgement is written (x12n_document returns and the last group is not FA)',
                        '"echoed values fit the element definitions": complaints of the validator about AK1/AK2/AK3/AK4(04)/IK3/IK4(04), '
                        'ISA05-08,11,12,15, GS02,03,06,07, GE02 and TA101-03 of the acknowledgement are allowed',
-                       'TA105 of a 999 (`list(set(codes))[0]`) and the order of the AK3/IK3 lines of one segment depend on hash order: masked / compared as multisets',
+                       'TA105 of a 999 and the order of the AK3/IK3 lines of one segment are sorted since the repair and compared exactly',
                        'a case in which a copied value contains ~ * or : is reported under the single key pred:ack-echo-contains-delimiter']
     return res.finish(trusted=common.TRUSTED_COMMON + [
         'modelled: error_997_visitor, error_999_visitor + X12Writer, Segment/Composite operations (Model/Ack.lean)',
